@@ -538,28 +538,54 @@ def o6(rep):
     that (emitFileRemove) must not touch it, and emitFileName must not hand it to the generated aldormain unit (whose C file is
     written over it and then removed)."""
     from .peval import peval
-    f = common.extract("emit.c", trees=["emitFileRename", "emitFileRemove", "emitFileName"],
-                       cfg=["emitFileRename", "emitFileRemove", "emitFileName"])
+    f = common.extract("emit.c", all_trees=True, all_cfg=True)
 
     def scenario(fname, named, axlmain, target):
         fn = f.func(fname)
         cfg = common.CFG(fn)
 
-        def lookup(n, env):
+        def lookup(n, env, depth=0):
             if n["k"] == "ArraySubscriptExpr" and (strip(n["c"][0]) or {}).get("n") == "emitOutputFileName":
                 return named
             if n["k"] == "MemberExpr" and n["n"] == "isAXLmain":
                 return axlmain
+            if n["k"] == "CallExpr" and depth < 3:
+                # a predicate of the unit that spells the condition out: its value when every return that can be reached
+                # under the same facts gives the same constant
+                g = f.funcs.get(n.get("callee"))
+                if g is not None and g.get("static") and g.get("cfg") and "body" in g:
+                    vals = possible(g, depth + 1)
+                    if vals is not None and len(vals) == 1:
+                        return next(iter(vals))
             return None
 
-        def edge_ok(b, s_):
-            ce = cfg.cond_edges(b)
-            if ce is None:
-                return True
-            v = peval(ce[0], {}, lookup)
-            if v is None:
-                return True
-            return s_ == (ce[1] if v else ce[2])
+        def possible(g, depth):
+            gcfg = common.CFG(g)
+            lk = lambda n, env: lookup(n, env, depth)
+            vals = set()
+            for bid, j, r in gcfg.return_blocks():
+                if not r.get("c") or r["c"][0] is None:
+                    return None
+                reach = gcfg.path_avoiding(gcfg.entry, lambda n, r=r: n is r, lambda n: False, edge_ok=mk_edge_ok(gcfg, lk))
+                if reach is None:
+                    continue
+                v = peval(r["c"][0], {}, lk)
+                if v is None:
+                    return None
+                vals.add(int(bool(v)))
+            return vals
+
+        def mk_edge_ok(cfg_, lk):
+            def edge_ok(b, s_):
+                ce = cfg_.cond_edges(b)
+                if ce is None:
+                    return True
+                v = peval(ce[0], {}, lk)
+                if v is None:
+                    return True
+                return s_ == (ce[1] if v else ce[2])
+            return edge_ok
+        edge_ok = mk_edge_ok(cfg, lookup)
         if not cfg.events(target):
             raise AnalysisBroken("%s: the statement looked for is not there" % fname)
         return cfg.path_avoiding(cfg.entry, target, lambda n: False, edge_ok=edge_ok), fn
